@@ -24,10 +24,13 @@ import (
 	"testing"
 	"time"
 
+	jose "github.com/go-jose/go-jose/v4"
+
 	"github.com/zitadel/oidc/v3/pkg/op"
 
 	"verif/harness/engine"
 	"verif/harness/rig"
+	"verif/harness/rig/keys"
 	"verif/harness/rig/refstore"
 )
 
@@ -203,6 +206,13 @@ func secretOf(r *rig.Rig, client string) string {
 
 // authFor fills in how client identifies itself when it does it properly.
 func authFor(r *rig.Rig, client string, form url.Values) string {
+	if client == "jwt" { // private_key_jwt client: assertion signed now (fake clock) with its registered key
+		now := time.Now().Unix()
+		p, _ := json.Marshal(map[string]any{"iss": "jwt", "sub": "jwt", "aud": []string{rig.Issuer}, "iat": now - 10, "exp": now + 300})
+		form.Set("client_assertion", keys.SignCompact(keys.Get("p256b"), jose.ES256, "jk2", p))
+		form.Set("client_assertion_type", "urn:ietf:params:oauth:client-assertion-type:jwt-bearer")
+		return ""
+	}
 	if confidential(client) {
 		return rig.Basic(client, secretOf(r, client))
 	}
@@ -657,7 +667,7 @@ func TestCheck(t *testing.T) {
 			continue
 		}
 		p := &part{c: c, router: router,
-			daClients: engine.Pick(c, []string{"web", "pub", "norefresh", "ghost"}, []string{"web", "pub", "webjwt", "norefresh", "ghost", "web-nocred"}),
+			daClients: engine.Pick(c, []string{"web", "pub", "norefresh", "ghost"}, []string{"web", "pub", "webjwt", "jwt", "norefresh", "ghost", "web-nocred"}),
 			maxFlows:  2, users: []string{"u1", "u2"},
 			near: c.Thorough(), slow: true, extraWho: c.Thorough()}
 		engine.RunE2(c, engine.E2[S]{
@@ -685,6 +695,9 @@ func TestCheck(t *testing.T) {
 	}
 	if want("format") {
 		runFormat(c)
+	}
+	if want("client") {
+		runClient(c)
 	}
 	if want("seeds") {
 		runSeeds(c)
